@@ -250,7 +250,7 @@ func (w *World) verifyContract(con *Contract, opts *RunOpts) (res *FuncResult) {
 				for _, scl := range con.clauses("shape") {
 					eq := strings.Index(scl.Raw, "=")
 					path := strings.TrimSpace(scl.Raw[:eq])
-					if !strings.HasPrefix(path, "result") {
+					if !strings.HasPrefix(path, "result") || path == "results" {
 						continue
 					}
 					var k int
